@@ -86,11 +86,11 @@ class VerifyRule(BaseRule):
             f = st.copy()
             f.ts["check_failed"] = "hostname"
             return [Out("normal", s, UNK), Out("raise", f, exc("urllib3.util.ssl_match_hostname.CertificateError"))]
-        if t == "ssl_sock.getpeercert":
+        if isinstance(node.func, ast.Attribute) and node.func.attr == "getpeercert" and recv is not None and recv.kind == "obj" and recv.val == "ssl_sock":
             f = st.copy()
             f.ts["check_failed"] = "getpeercert"
             return [Out("normal", st.copy(), AV("unk", sym="peercert")), Out("raise", f, EXT_TOP)]
-        if t == "ssl_sock.close":
+        if isinstance(node.func, ast.Attribute) and node.func.attr == "close" and recv is not None and recv.kind == "obj" and recv.val == "ssl_sock":
             s = st.copy()
             s.ts["ev"] = s.ts.get("ev", ()) + ("close",)
             return [Out("normal", s, const(None))]
